@@ -33,6 +33,8 @@ ASSUMPTIONS = c15.ASSUMPTIONS[:3] + [
     "(merged and kept installed), keep every installed package or replace it in its own slot, and its merged packages must "
     "not depend on each other in a cycle (self-dependencies count as cycles) and none of its blockers may match a package "
     "installed at the start (replaced or not); inputs without such a witness carry no obligation",
+    "Excl: the highest-version clause carries no obligation in universes whose source repository has a dependency cycle between "
+    "package names (any class, any version): which version is reachable through a cycle depends on merge order",
     "Excl: the highest-version clause is not applied to the empty-tree resolver (it never consults installed packages, so "
     "'preferring the installed instance' is not defined for it); it is covered by the determinism clause only",
     "Excl: the min-install clause is applied only when every target of the input is matched by an installed package",
@@ -160,7 +162,30 @@ def highest_for(uni, target):
     return n, v
 
 
+def source_cyclic(uni):
+    """Some source package name depends (transitively, any class, any version) on itself."""
+    edges = {}
+    for n, v, s, d in uni["src"]:
+        for c in c15.CLS:
+            for clause in c15.parse_dep(d.get(c, "")):
+                for a in clause:
+                    if not a["blk"]:
+                        edges.setdefault(n, set()).add(a["name"])
+    for start in sorted(edges):
+        seen, todo = set(), [start]
+        while todo:
+            for m in edges.get(todo.pop(), ()):
+                if m == start:
+                    return True
+                if m not in seen:
+                    seen.add(m)
+                    todo.append(m)
+    return False
+
+
 def premise_upgrade(uni, targets, wit):
+    if source_cyclic(uni):
+        return None
     want = []
     for t in targets:
         h = highest_for(uni, t)
@@ -385,9 +410,9 @@ def replay(case):
 
 def _k_needs_lower_dependency(case):
     """The upgrade resolver fails (or settles for a lower target version) and every witness final state holding the highest
-    target versions leaves out the highest version of some non-target package whose blocker matches a package of that
-    witness: the resolver commits to its first pick for a dependency (highest version / first any-of alternative) and does
-    not come back to it when the blocker that pick brought in collides with a later target or dependency."""
+    target versions leaves out the highest version of some package that is in a blocker conflict (either direction) with a
+    package of that witness: the resolver commits to its first pick (highest version / first any-of alternative) and does
+    not come back to it when a blocker makes that pick collide with a later target or dependency."""
     tags = case.get("tags") or []
     if case.get("what") != "policy" or not tags or not set(tags) <= {"U-failed", "U-not-highest"}:
         return False
@@ -397,25 +422,29 @@ def _k_needs_lower_dependency(case):
     if not want:
         return False
     wanted = {h for _, h in want}
-    target_names = {h[0] for h in wanted}
     good = [w for w in wit if wanted <= {(q[0], q[1]) for q in w}]
     if not good:
         return False
     tops = {}
     for n, v, s, d in uni["src"]:
-        if n not in target_names and (n not in tops or v > tops[n][1]):
+        if n not in tops or v > tops[n][1]:
             tops[n] = (n, v, s, d)
+    deps = {(n, v, s): d for n, v, s, d in uni["src"]}
+
+    def blockers(d):
+        return [a for c in c15.CLS for clause in c15.parse_dep(d.get(c, "")) for a in clause if a["blk"]]
+
     for w in good:
         have = {(q[0], q[1]) for q in w}
         explained = False
         for n, v, s, d in tops.values():
             if (n, v) in have:
                 continue
-            for c in c15.CLS:
-                for clause in c15.parse_dep(d.get(c, "")):
-                    for a in clause:
-                        if a["blk"] and any(c15.ref_match(a, r) for r in w if r[0] != n):
-                            explained = True
+            if any(c15.ref_match(b, r) for b in blockers(d) for r in w if r[0] != n):
+                explained = True
+            for r in w:
+                if r[3] == "src" and r[0] != n and any(c15.ref_match(b, (n, v, s)) for b in blockers(deps[r[:3]])):
+                    explained = True
         if not explained:
             return False
     return True
